@@ -170,8 +170,8 @@ package frame
 //@ func (*Reader).Initialize
 //@   requires r != nil
 //@   ensures  (err == nil) == (r.BufByteReader != nil)
-//@   ensures  old(r.ByteReader) == nil ==> r.BufByteReader == old(r.BufByteReader)
-//@   modifies r.BufByteReader
+//@   ensures  old(r.ByteReader) != nil ==> r.BufByteReader != nil && freshPtr(r.BufByteReader)
+//@   modifies r.BufByteReader when old(r.ByteReader) != nil
 
 //@ func (*Reader).Read returns (fr, err)
 //@   let br   = r.BufByteReader
